@@ -36,7 +36,12 @@ def run_one(here, entry, kind):
         src = os.path.join(work, "repo")
         subprocess.check_call(["rsync", "-a", "--exclude", "target", "--exclude", ".git", "/repo/", src + "/"])
         try:
-            apply_edits(src, entry["edits"])
+            if "patch" in entry:
+                pr = subprocess.run(["git", "apply", "--whitespace=nowarn", os.path.join(here, entry["patch"])], cwd=src,
+                                    stdout=subprocess.PIPE, stderr=subprocess.STDOUT, text=True)
+                if pr.returncode != 0:
+                    raise RuntimeError("patch does not apply: " + pr.stdout[-300:])
+            apply_edits(src, entry.get("edits", []))
         except RuntimeError as ex:
             return entry["name"], False, "EDIT FAILED: %s" % ex
         outs = []
@@ -45,6 +50,10 @@ def run_one(here, entry, kind):
             p = subprocess.run([os.path.join(here, "check"), prop, "--src", src, "--tier", entry.get("tier", "quick")],
                                stdout=subprocess.PIPE, stderr=subprocess.STDOUT, text=True)
             out = p.stdout
+            # replay files of scratch runs live in their own temp dir: remove them once read
+            import re as _re
+            for mm in _re.finditer(r"replay=(/tmp/rfv-replay\.[A-Za-z0-9_]+)/", out):
+                shutil.rmtree(mm.group(1), ignore_errors=True)
             if "does not type-check" in out or "failed to type-check" in out:
                 return entry["name"], False, "MUTANT DOES NOT COMPILE\n" + out[-1500:]
             if kind == "mutant":
